@@ -600,13 +600,20 @@ class Ruby(ContentElement):
     if self.has_children():
       raise RuntimeError("Remove all ruby children before adding more.")
 
+    children = list(children)
+
     ts = [type(x) for x in children]
 
     if ts not in [[Rb, Rt], [Rb, Rp, Rt, Rp], [Rbc, Rtc], [Rbc, Rtc, Rtc]]:
       raise ValueError("Children of ruby do not conform to requirements")
 
-    for child in children:
-      super().push_child(child)
+    try:
+      for child in children:
+        super().push_child(child)
+    except Exception:
+      # all or nothing: do not leave a partial pattern behind
+      self.remove_children()
+      raise
 
   def remove_children(self):
     '''Remove all children of the element.'''
